@@ -199,6 +199,75 @@ def r2b_no_write_after_add(report, repo):
         (q, adder, norm(bad[0].ast) if bad else ''))
 
 
+def r2c_context_users(report, repo):
+  rule = 'C10-R2'
+  TE = 'openhtf/core/test_executor.py'
+  PE = 'openhtf/core/phase_executor.py'
+  n = 0
+  for rel in (TE, PE):
+    for f in repo.module(rel).all_funcs():
+      for w in walk_no_nested(f.node):
+        if not isinstance(w, ast.With):
+          continue
+        for it in w.items:
+          if last_attr(it.context_expr) in ('_subtest_context',
+                                            'running_phase_context') and \
+              isinstance(it.optional_vars, ast.Name):
+            n += 1
+            var = it.optional_vars.id
+            bad = []
+            for node, acc in [(x, t) for x in walk_no_nested(f.node)
+                              if isinstance(x, (ast.Assign, ast.AugAssign))
+                              for t in core.assigned_targets(x)]:
+              d = dotted(acc) or ''
+              if d.startswith(var + '.') and not core.in_block(node, w, 'body'):
+                bad.append(node)
+            report.check(
+                not bad, rule, f.qualname, 'write-outside-context:' + var, w,
+                '%s: every write to `%s` is inside the context block (the '
+                'record is added and its rendering cached when the block '
+                'exits)' % (f.qualname, var),
+                '%s writes %s after the `with` block that adds the record and '
+                'caches its rendering: the serialized record keeps the earlier '
+                'value' % (f.qualname, norm(bad[0]) if bad else ''))
+  report.expect_instances(rule, n, 3, 'record context users')
+
+
+def r3b_sibling_rows(report, repo):
+  rule = 'C10-R3'
+  f = repo.func(ME, 'DimensionedMeasuredValue.__setitem__')
+  b = repo.func(ME, 'DimensionedMeasuredValue.basetype_value')
+  apps = [c for c in core.calls_in(f.node, attr='append')
+          if dotted(c.func.value) == 'self._cached_basetype_values']
+  gens = [g for g in walk_no_nested(b.node)
+          if isinstance(g, (ast.GeneratorExp, ast.ListComp))]
+  ok = len(apps) == 1 and len(gens) == 1
+  if ok:
+    def shape(e, coord, val):
+      import copy  # pylint: disable=g-import-not-at-top
+      e = copy.deepcopy(e)
+      for x in ast.walk(e):
+        if isinstance(x, ast.Name) and x.id == coord:
+          x.id = 'COORD'
+        elif isinstance(x, ast.Name) and x.id == val:
+          x.id = 'VAL'
+      return norm(e)
+    a = shape(apps[0].args[0], 'coordinates', 'value')
+    tg = gens[0].generators[0].target
+    names = [dotted(e) for e in tg.elts] if isinstance(tg, ast.Tuple) else []
+    r = shape(gens[0].elt, names[0], names[1]) if len(names) == 2 else '?'
+    ok = a == r and 'convert_to_base_types(COORD + (VAL,)' in a.replace(
+        'data.', '')
+  report.check(ok, rule, f.qualname, 'append-equals-rebuild', f.node,
+               'the incremental append and the from-scratch rebuild render a '
+               'row with the same expression: convert_to_base_types('
+               'coordinates + (value,))',
+               'the row appended incrementally and the row produced by the '
+               'rebuild in basetype_value() are rendered differently: the '
+               'served view depends on whether a coordinate was ever '
+               'overridden (e.g. unconverted Enum / inf coordinates)')
+
+
 def r4_measurement_outcome(report, repo):
   rule = 'C10-R4'
   report.rule(rule, 'paired write: every assignment to Measurement.outcome is '
@@ -494,6 +563,8 @@ def run(report, repo):
   report.guard(r1_schema, report, repo)
   report.guard(r2_record_lists, report, repo)
   report.guard(r2b_no_write_after_add, report, repo)
+  report.guard(r2c_context_users, report, repo)
+  report.guard(r3b_sibling_rows, report, repo)
   from sa.rules import c06  # pylint: disable=g-import-not-at-top
   report.guard(c06.r3_stored_value, report, repo, only_cache=True)
   report.guard(r4_measurement_outcome, report, repo)
